@@ -12,7 +12,7 @@ CHECKS = {
    technique="trace validation: recorded API traces of the real compressor judged by an executable TLA+ RFC 1951/1950/1952 decoder"),
  "C07": dict(cat="model_checking", ref="DESIGN.md §3 C07",
    text="Call histories (every single input split point, (in,out) chunk-size pairs incl. 1-byte buffers, random schedules with flush-mode changes and late end_of_stream, refill-before-drain, three chunk-memory disciplines) are replayed into isal_deflate and isal_inflate; "
-        "each recorded trace is validated by TLC: per-call contract rules (accounting, progress, END/FINISH absorbing), compression output must decode (TLA+ decoder) to the concatenated input, decompression must deliver exactly the spec's decode of the same stream with the same final state/position/checksum in one-shot and streaming form.",
+        "each recorded trace is validated by TLC: per-call contract rules (accounting, progress, END/FINISH absorbing), compression output must decode (TLA+ decoder) to the concatenated input, decompression must deliver exactly the spec's decode of the same stream with the same final state/position/checksum in one-shot and streaming form. The control state machines of both codecs (spec/DeflateStreamOps.tla, spec/InflateStreamOps.tla: function-by-function transcriptions of igzip.c / igzip_inflate.c over abstract room/input classes) are model-checked by TLC on every run (DeflateStream, InflateStream x modes), every recorded call is looked up in their tabulated per-call relations (rules M1/M2, reported as drift), and the harness derives additional schedules from the model by always taking the least-visited environment choice from the control state the real stream is in.",
    note="Trusted: TLC's evaluation of the specs; harness; schedules sampled from VERIF_SEED plus systematic families.",
    technique="trace validation of recorded streaming call histories against the TLA+ stream contract and decoder"),
  "C02": dict(cat="exploration", ref="DESIGN.md §3 C02",
@@ -21,7 +21,7 @@ CHECKS = {
    note="Trusted: the TLA+ decoder (cross-checked against zlib on the same generator); generator and zlib only produce bytes.",
    technique="TLA+ reference decoder (TLC) judging recorded inflate traces of spec-classified generated streams"),
  "C05": dict(cat="exploration", ref="DESIGN.md §3 C05",
-   text="Hardware page protection while replaying spec-generated behaviours: every buffer lives in its own mapping inside a sparse PROT_NONE arena; data-plane entry points (all EC, RAID, CRC/Adler, zero-detect variants) run for every len 0..N with first/last byte against an inaccessible page and canaries; "
+   text="Hardware page protection while replaying spec-generated behaviours: every buffer lives in its own mapping inside a sparse PROT_NONE arena; data-plane entry points (all EC, RAID, CRC/Adler, zero-detect variants, histogram collectors, ec_init_tables, generator-matrix builders, gf_invert_matrix) run for every len 0..N with first/last byte against an inaccessible page and canaries; "
         "streaming deflate/inflate run with every input chunk in an exact-size mapping that is unmapped or recycled-and-scribbled the moment it is consumed, the context directly after an inaccessible page and output flush against one, over pending-flush/refill, tiny-output, chunk-size and one-shot schedules. "
         "spec/Memory.tla states the footprint/lifetime contract and is model-checked (the variant that keeps a pointer into a consumed chunk violates it). All other checks also run under the same guard placements.",
    note="Detection is by page protection at buffer edges plus canaries: accesses that stay inside other live declared memory are invisible. The TLA+ part is the contract and the schedules, not the detector.",
@@ -51,7 +51,7 @@ CHECKS = {
  "C04": dict(cat="exploration", ref="DESIGN.md §3 C04",
    text="spec/Checksums.tla defines one parametric bit-serial CRC (tables derived inside the spec) with the 12 ISA-L parameter sets and Adler-32; published check values are ASSUMEd on every run. "
         "TLC emits the checksum of every prefix of each message; the harness replays every variant (base, _00/_01/_02, by4, by8, by8_02, by16_10, dispatched, copy form, adler base/sse/avx2/bam1) for every len 0..N, "
-        "alignments, guard-page placements and every split point of selected lengths (composition). Exhaustive in (len<=N, placement) per message; messages/seeds sampled from VERIF_SEED.",
+        "alignments, guard-page placements and every split point of selected lengths (composition); lengths are dense around multiples of the Adler reduction block (5552) and powers of two; one message of 2^32 + r bytes per function (sparse zero-page mapping) is checked whole and composed against the spec's zero-run algebra (multiplication by x^(8n) mod P, validated against the fold on every run). Exhaustive in (len<=N, placement) per message; messages/seeds sampled from VERIF_SEED.",
    note="Trusted: TLC's evaluation of Checksums.tla; harness h_crc.c; seed conventions as documented in the headers.",
    technique="TLA+ definitional spec evaluated by TLC as oracle generator; prefix-sharing vectors replayed into every variant"),
  "C08": dict(cat="exploration", ref="DESIGN.md §3 C08",
@@ -63,7 +63,7 @@ CHECKS = {
  "C15": dict(cat="model_checking", ref="DESIGN.md §3 C15",
    text="spec/DispatchRace.tla models the only shared mutable state (one self-patching pointer slot per entry point) at machine-step granularity and is model-checked for 3 threads x 2 functions (ExecOK, SlotOK, Monotone, Progress; the torn-store variant violates ExecOK). "
         "Binding: slots are 8-byte aligned and written by one 8-byte store (checked on the built binary); the shared library built from the working tree is warmed up, its writable pages made read-only and the workload run on many threads (any write into library data or result differing from serial execution is a violation); "
-        "fresh processes race first calls; determinism is checked as 2-safety by TLC (TraceEqual.tla) over pre-fill and reset/init reuse pairs.",
+        "fresh processes race first calls; determinism is checked as 2-safety by TLC (TraceEqual.tla) over pre-fill and reset/init reuse pairs (compressor: garbage pre-fill, reset after another stream, init after an abandoned one; decompressor: nine reset-after-X histories x six follow-up uses including the stand-alone header readers with caller buffers).",
    note="Interleavings are exhaustive only in the model; for the code the argument is structural (no writable global besides idempotent, atomically stored slots), observed under page protection.",
    technique="TLC model checking of the dispatch race model; binary and page-protection conformance checks; self-composition pairs judged by TLC"),
  "C16": dict(cat="exploration", ref="DESIGN.md §3 C16",
@@ -86,10 +86,10 @@ CHECKS = {
  "C19": dict(cat="model_checking", ref="DESIGN.md §3 C19",
    text="Recorded behaviour of the header writers and the resumable header readers is validated by TLC against the RFC 1952/1950 layouts in spec/Wrappers.tla: written bytes must be exactly as long as the layout and parse back (RFC byte order, FCHECK, CRC16) to the given fields, "
         "or the required size with the stream untouched; readers are driven over every split point of headers with every subset of optional fields, 1-byte chunks, undersized user buffers with growth (resume) and without, python-gzip-made headers, FDICT zlib headers and random byte strings, "
-        "each chunk and user buffer flush against an inaccessible page; TLC requires documented codes, END_INPUT only with all input consumed, and on completion the fields and end position of the spec's own parse.",
+        "each chunk and user buffer flush against an inaccessible page; TLC requires documented codes, END_INPUT only with all input consumed, and on completion the fields and end position of the spec's own parse. The readers' resume-state machine (spec/HeaderIOOps.tla, HeaderIO.tla) is model-checked and every recorded reader call is checked to be one of its steps (rule M3, reported as drift).",
    note="Trusted: Wrappers.tla's transcription of the RFCs; harness h_hdr.c.", technique="trace validation of writer/reader call histories against the TLA+ RFC 1950/1952 layout spec"),
  "C20": dict(cat="exploration", ref="DESIGN.md §3 C20",
-   text="Exhaustive sweep over (variant, len 0..N, alignment, position of a single non-zero byte, guard-page placement) of the zero-detect routine; aggregates per (variant, len) are judged by TLC against spec/MemZero.tla.",
+   text="Exhaustive sweep over (variant, len 0..N, alignment, position of a single non-zero byte, guard-page placement) of the zero-detect routine, plus dense contents (whole region / last 16, 32, 64, 128 bytes non-zero) at every (len, placement) and a sparse region of 4 GiB + 3000 bytes; aggregates per (variant, len) are judged by TLC against spec/MemZero.tla.",
    note="Trusted: aggregation in h_mem.c; TLC.", technique="exhaustive enumeration of the implementation input space within N, judged by TLC against the TLA+ definition"),
  "C09": dict(cat="exploration", ref="DESIGN.md §3 C09",
    text="TLC judges recorded behaviour of the real code against EC.tla/GF256.tla: generator matrices equal the documented formulas; gf_invert_matrix returns success exactly for non-singular inputs (Gauss-Jordan in the spec) and in*out=I, "
